@@ -18,7 +18,7 @@ func init() {
 	register(&Check{
 		ID:    "C19",
 		Level: "model_checking",
-		Rule: "stateless exploration of thread interleavings on the real Compile/Run under a cooperative scheduler: the harness runs one goroutine at a time and switches only at hooked points = every access to a package-level variable of libvore (instrumentation generated from the current tree by type-checking it), every operation of a sync.Mutex/RWMutex/Once/WaitGroup/Pool in libvore (replaced by scheduler-aware shims; a blocked Lock disables the thread; the Pool shim is a deterministic free list that reports an object put while the pool already holds it), every call of a package-level function of math/rand (one locked process-wide source: a scheduling point, never a race), every VM instruction (hook H1) and call entry/exit; deviation-bounded DFS: all schedules with <= 2 preemptions (thorough: 3 for the Compile-only scenarios) of 12 scenarios (three Compiles of which one draws the ids of nested loops; two Runs of a FRESH program with a transform and a predicate - its first Run happens under the scheduler; three Runs with reads longer than any small buffer; two Runs of a replace with long gaps (<= 1 preemption); two Compiles with regex groups; Compile with groups || Compile without; Compile || Run; two Runs of the SAME program; three threads Compile/Compile/Run; three Compiles; Compiles of sources with transform/predicate bodies that assign resp. read unset names; three failing Compiles whose errors must keep their own token), each execution run to completion; in addition every scenario is executed once per starting thread as the FIRST thing a fresh process does (state that is initialised or grown lazily on first use is cold only then); " +
+		Rule: "stateless exploration of thread interleavings on the real Compile/Run under a cooperative scheduler: the harness runs one goroutine at a time and switches only at hooked points = every access to a package-level variable of libvore, also through a local variable it was assigned to (instrumentation generated from the current tree by type-checking it), every operation of a sync.Mutex/RWMutex/Once/WaitGroup/Pool in libvore (replaced by scheduler-aware shims; a blocked Lock disables the thread; the Pool shim is a deterministic free list that reports an object put while the pool already holds it), every call of a package-level function of math/rand (one locked process-wide source: a scheduling point, never a race), every VM instruction (hook H1) and call entry/exit; deviation-bounded DFS: all schedules with <= 2 preemptions (thorough: 3 for the Compile-only scenarios) of 13 scenarios (three Compiles of process code with loops, one of them with a `break` outside any loop; three Compiles of which one draws the ids of nested loops; two Runs of a FRESH program with a transform and a predicate - its first Run happens under the scheduler; three Runs with reads longer than any small buffer; two Runs of a replace with long gaps (<= 1 preemption); two Compiles with regex groups; Compile with groups || Compile without; Compile || Run; two Runs of the SAME program; three threads Compile/Compile/Run; three Compiles; Compiles of sources with transform/predicate bodies that assign resp. read unset names; three failing Compiles whose errors must keep their own token), each execution run to completion; in addition every scenario is executed once per starting thread as the FIRST thing a fresh process does (state that is initialised or grown lazily on first use is cold only then); " +
 			"oracle: every call returns what it returns alone; vector-clock race check on the instrumented variables (two accesses, one a write, not ordered by program order or lock hand-over); the bytecode of a shared program, process code included (deep reflection key), must not change - whatever a Run writes into the program another Run reads unsynchronised; no pool misuse; no deadlock; states = executions explored, transitions = scheduling points executed; every execution is an implementation trace",
 		Assume: []string{"memory-model effects and accesses to heap objects that are neither package-level variables nor visible in results/bytecode are outside the explorer's alphabet", "a free-running -race pass of the same scenario bodies is supporting evidence only"},
 		Budget: map[string]int{"quick": 200, "thorough": 1500},
